@@ -583,7 +583,11 @@ def run_case(case, fail, stats):
         m = xdeps.Manager()
         c = m.ref({}, case.get("label", "c"))
         m2 = xdeps.Manager()
-        c2 = m2.ref({}, case.get("label2", case.get("label", "c")))
+        c2 = None if case.get("refattr2") else m2.ref({}, case.get("label2", case.get("label", "c")))
+        if case.get("refattr2"):
+            # the second container registered with Manager.refattr(): same label, same item steps = the same access path
+            c2 = m2.refattr({}, case.get("label2", case.get("label", "c")))
+            stats["eq_ref_vs_refattr_pairs"] = stats.get("eq_ref_vs_refattr_pairs", 0) + 1
         p, q = mkpath(c, case["p"]), mkpath(c2, case["q"])
         case["_pexpr"] = pexpr_of(p)
         case["_tokens"] = py_tokens(str(p))
@@ -1330,6 +1334,11 @@ def cases_c06(rng, n):
     for a, b in [(-1, -2), (0, 2 ** 61 - 1)]:
         yield {"kind": "eqhash", "p": [["i", "k"], ["i", a]], "q": [["i", "k"], ["i", b]]}
     yield {"kind": "eqhash", "p": [["i", "a"]], "q": [["i", "a"]], "label": "c", "label2": "d"}
+    # the same label registered once with ref() and once with refattr() (two managers): item steps only, since attribute
+    # syntax on a refattr container MEANS an item
+    yield {"kind": "eqhash", "p": [["i", "a"]], "q": [["i", "a"]], "refattr2": True}
+    yield {"kind": "eqhash", "p": [["i", "a"], ["a", "y"]], "q": [["i", "a"], ["a", "y"]], "refattr2": True}
+    yield {"kind": "eqhash", "p": [["i", "a"], ["i", 2]], "q": [["i", "a"], ["i", 3]], "refattr2": True}
     yield {"kind": "eqhash", "p": [["a", "a"]], "q": [["i", "a"]], "label": "c", "label2": "c"}
 
 
